@@ -110,12 +110,22 @@ Prepend(k, g, h, withProduct) ==
              /\ last' = R("ok")
   /\ UNCHANGED <<rev, wit>>
 
+\* Update.Prepend with a list that does NOT belong to this accumulator (events g..h of another chain under the
+\* same key, h >= 1: event 0 is identical in all chains): whatever the window, the call fails and must leave
+\* the update object - including its memoised product - as it was
+PrependForeign(k, g, h, withProduct) ==
+  /\ upd[k].made /\ nstep < MaxApply /\ upd[k].first <= upd[k].last
+  /\ g \in 0..n /\ h \in g..n /\ h >= 1
+  /\ nstep' = nstep + 1
+  /\ last' = [op |-> "prependforeign", w |-> 0, k |-> k, res |-> "rejected", g |-> g, h |-> h, p |-> withProduct]
+  /\ UNCHANGED <<rev, wit, upd>>
+
 Next == \/ RevokeOther
         \/ \E w \in W : RevokeWit(w)
         \/ \E w \in W, g \in BOOLEAN : Issue(w, g)
         \/ \E k \in U, f \in 0..(MaxRev+1), t \in {0, 1} : MakeUpdate(k, f, t)
         \/ \E w \in W, k \in U : Apply(w, k)
-        \/ \E k \in U, g \in 0..MaxRev, h \in 0..MaxRev, p \in BOOLEAN : Prepend(k, g, h, p)
+        \/ \E k \in U, g \in 0..MaxRev, h \in 0..MaxRev, p \in BOOLEAN : Prepend(k, g, h, p) \/ PrependForeign(k, g, h, p)
 Spec == Init /\ [][Next]_vars
 
 \* ---------------------------------------------------------------- property C09
